@@ -153,6 +153,8 @@ def make_runner(c, f, mutate, sink, fixed=None, case=None):
 
             def hook(fr, retval):
                 vals = dict(fr.env)
+                for k_, v_ in values.items():
+                    vals.setdefault('old_' + k_, v_)       # the arguments as they were on entry (parameters may be reassigned)
                 vals['result'] = retval
                 if all(nm in vals for nm in rnames):
                     eval_cfn(ip, c.at_return, vals, old_heap)
@@ -809,7 +811,7 @@ def crosscheck(c, f, n, seed):
             r = f(*[a_native[p] for p in params if p in a_native])
             if isinstance(r, types.GeneratorType):
                 r = tuple(r)
-            nat = ('ret', _norm_native(r), {k: _norm_native(v) for k, v in a_native.items()})
+            nat = ('ret', _norm_native(r), {k: _norm_native(v) for k, v in a_native.items() if not getattr(c.sig.get(k), 'shared', False)})
         except Exception as ex:
             nat = ('raise', type(ex).__name__, None)
         # engine, concrete
@@ -829,7 +831,7 @@ def crosscheck(c, f, n, seed):
                         closure[nm] = cell.cell_contents
                 ip.use_contracts = False
                 r = ip.run_function(node, f.__globals__, c.target, [env[p] for p in params if p in env], {}, closure, f)
-                box['r'] = ('ret', engine_to_native(ip, r), {k: engine_to_native(ip, v) for k, v in env.items()})
+                box['r'] = ('ret', engine_to_native(ip, r), {k: engine_to_native(ip, v) for k, v in env.items() if not getattr(c.sig.get(k), 'shared', False)})
             except PyRaise as ex:
                 box['r'] = ('raise', ex.cls.__name__, None)
         x.explore(run)
